@@ -414,12 +414,11 @@ func init() {
 		}
 		if f := c.fn("statesync", "chunkQueue.Next"); f != nil {
 			n := 0
-			for _, b := range f.Blocks {
-				for _, in := range b.Instrs {
-					if mu, ok := in.(*ssa.MapUpdate); ok && w.expr(mu.Map) == "q.chunkReturned" {
-						n++
-						c.Check(w.expr(mu.Key) == "q.nextUp()#0", funcKey(f)+" :: marks the index it returns", w.ipos(mu), "chunkReturned[nextUp] = true", "marks "+w.expr(mu.Key))
-					}
+			for _, di := range w.deepInstrs(f, 2) {
+				if mu, ok := di.in.(*ssa.MapUpdate); ok && w.exprWith(mu.Map, di.sub) == "q.chunkReturned" {
+					n++
+					k := w.exprWith(mu.Key, di.sub)
+					c.Check(k == "q.nextUp()#0", funcKey(f)+" :: marks the index it returns", w.ipos(mu), "chunkReturned[nextUp] = true", "marks "+k)
 				}
 			}
 			c.Check(n >= 1, funcKey(f)+" :: returned chunks are marked", w.pos(f.Pos()), "marking present", "returned chunks are not marked as returned")
